@@ -214,20 +214,23 @@ func (r *shortReader) Read(p []byte) (int, error) {
 }
 
 // drain: wait until every job accepted by a worker pool has been executed
+var drainSkew int64 // jobs accepted and never executed, as of the last drain that timed out
+
 func drainPool() bool {
 	deadline := time.Now().Add(20 * time.Second)
 	for time.Now().Before(deadline) {
 		a := verifhook.Counter("wpool.accepted")
 		e := verifhook.Counter("wpool.executed")
-		if a == e {
+		if int64(a)-int64(e) == drainSkew {
 			time.Sleep(2 * time.Millisecond)
-			if verifhook.Counter("wpool.accepted") == a && verifhook.Counter("wpool.executed") == a {
+			if verifhook.Counter("wpool.accepted") == a && verifhook.Counter("wpool.executed") == e {
 				return true
 			}
 			continue
 		}
 		time.Sleep(time.Millisecond)
 	}
+	drainSkew = int64(verifhook.Counter("wpool.accepted")) - int64(verifhook.Counter("wpool.executed"))
 	return false
 }
 
